@@ -10,6 +10,7 @@ import (
 
 	"crypto"
 	"crypto/x509"
+	"encoding/base64"
 	"encoding/xml"
 	"fmt"
 	"html"
@@ -37,11 +38,12 @@ type c07Setup struct {
 	idpMethod   string
 	idpSigner   bool
 	initiated   bool
+	certWS      string // how certificate texts are laid out in both metadata documents ("" = single line)
 }
 
 func (s c07Setup) key() map[string]string {
 	return map[string]string{"entity_id_set": fmt.Sprint(s.entityIDSet), "sp_key": s.spKey, "encryption": fmt.Sprint(s.cert), "request_binding": s.binding,
-		"signed_request": fmt.Sprint(s.signed), "idp_method": s.idpMethod, "idp_signer": fmt.Sprint(s.idpSigner), "idp_initiated": fmt.Sprint(s.initiated)}
+		"signed_request": fmt.Sprint(s.signed), "idp_method": s.idpMethod, "idp_signer": fmt.Sprint(s.idpSigner), "idp_initiated": fmt.Sprint(s.initiated), "cert_text_layout": s.certWS}
 }
 
 func xmlReparse(ed *saml.EntityDescriptor) (*saml.EntityDescriptor, error) {
@@ -78,6 +80,19 @@ type c07Result struct {
 	reqACSURL string
 	reqIndex  string
 	idpStatus int
+	encrypted bool
+}
+
+var c07Layouts = []string{"wrap64-lf", "wrap64-indented", "wrap76-crlf", "wrap76-crlf-indent", "wrap64-tab", "lead-trail-space", "interior-space", "interior-tab", "formfeed"}
+
+// layoutCerts rewrites the certificate text of a key descriptor the way metadata files carry it.
+func layoutCerts(kd *saml.KeyDescriptor, layout string) {
+	for i := range kd.KeyInfo.X509Data.X509Certificates {
+		d := kd.KeyInfo.X509Data.X509Certificates[i].Data
+		if v, ok := wsVariants(stripWS(d))[layout]; ok {
+			kd.KeyInfo.X509Data.X509Certificates[i].Data = v
+		}
+	}
 }
 
 func spSigner(name string) crypto.Signer {
@@ -104,6 +119,13 @@ func runPipeline(setup c07Setup, sess mSession, now time.Time, relay string) (re
 			res.stage, res.detail = "idp-metadata", err.Error()
 			return
 		}
+		if setup.certWS != "" { // the IdP metadata file the SP consumes is pretty-printed too
+			for i := range idpMD.IDPSSODescriptors {
+				for j := range idpMD.IDPSSODescriptors[i].KeyDescriptors {
+					layoutCerts(&idpMD.IDPSSODescriptors[i].KeyDescriptors[j], setup.certWS)
+				}
+			}
+		}
 		sp := &saml.ServiceProvider{
 			Key:               spSigner(setup.spKey),
 			MetadataURL:       mustURL("https://sp.example.com/saml2/metadata"),
@@ -128,6 +150,13 @@ func runPipeline(setup c07Setup, sess mSession, now time.Time, relay string) (re
 		if err != nil {
 			res.stage, res.detail = "sp-metadata", err.Error()
 			return
+		}
+		if setup.certWS != "" { // the SP metadata as registered at the IdP: wrapped / indented certificate text
+			for i := range spMD.SPSSODescriptors {
+				for j := range spMD.SPSSODescriptors[i].KeyDescriptors {
+					layoutCerts(&spMD.SPSSODescriptors[i].KeyDescriptors[j], setup.certWS)
+				}
+			}
 		}
 		res.spMD = spMD
 		idp.ServiceProviderProvider = reparsedRegistry{spMD}
@@ -182,6 +211,9 @@ func runPipeline(setup c07Setup, sess mSession, now time.Time, relay string) (re
 			vals.Set(mm[1], html.UnescapeString(mm[2]))
 		}
 		res.relayBack = vals.Get("RelayState")
+		if x, err := base64.StdEncoding.DecodeString(vals.Get("SAMLResponse")); err == nil {
+			res.encrypted = strings.Contains(string(x), "EncryptedAssertion") && !strings.Contains(string(x), "<saml:Assertion")
+		}
 		pr := httptest.NewRequest("POST", html.UnescapeString(am[1]), strings.NewReader(vals.Encode()))
 		pr.Header.Set("Content-Type", "application/x-www-form-urlencoded")
 		if err := pr.ParseForm(); err != nil {
@@ -271,6 +303,9 @@ func hostileSession(r *rand.Rand) (mSession, string) {
 func genSetup(r *rand.Rand) c07Setup {
 	s := c07Setup{entityIDSet: r.Intn(2) == 0, spKey: pick(r, []string{"rsa_b", "rsa_c", "ec_256"}), cert: r.Intn(2) == 0,
 		binding: pick(r, []string{"redirect", "post"}), idpMethod: pick(r, c06Methods), idpSigner: r.Intn(3) == 0, initiated: r.Intn(6) == 0}
+	if r.Intn(3) == 0 {
+		s.certWS = pick(r, c07Layouts)
+	}
 	// an ECDSA SP with a certificate publishes it for signing only (fix F18) and is answered unencrypted
 	s.signed = s.cert && r.Intn(2) == 0
 	return s
@@ -318,6 +353,8 @@ func c07Pipeline(c *Ctx) {
 		switch {
 		case i >= 16 && i < 24: // ECDSA SP keys with a certificate (fix F18): answered unencrypted
 			setup.spKey, setup.cert, setup.signed = "ec_256", true, i%2 == 0
+		case i >= 30 && i < 30+len(c07Layouts): // every certificate text layout, encrypted
+			setup = c07Setup{entityIDSet: i%2 == 0, spKey: pick(c.Rng, []string{"rsa_b", "rsa_c"}), cert: true, binding: "redirect", signed: i%3 == 0, certWS: c07Layouts[i-30]}
 		case i >= 24 && i < 30: // "]]>" in each string that travels as an XML attribute (known finding K4)
 			sess = mSession{Create: now, NameID: "alice", UserName: "u"}
 			at := mAttribute{Friendly: "f", Name: "n", Format: "urn:x", Values: []mAttrValue{{Type: "xs:string", Value: "v]]>"}}}
@@ -363,11 +400,16 @@ func c07Pipeline(c *Ctx) {
 		if res.accepted && res.relayBack != relay {
 			specOK = Bptr(false)
 		}
+		wantEnc := setup.cert && !strings.HasPrefix(setup.spKey, "ec")
+		if res.accepted && res.encrypted != wantEnc { // encrypted exactly when the SP publishes an RSA certificate
+			specOK = Bptr(false)
+		}
+		c.Count(fmt.Sprintf("encrypted/%v", res.encrypted))
 		c.Add(gs[i%len(gs)], &Case{
 			Key:   key,
 			Input: map[string]any{"setup": key, "session": sess, "relay_state": relay},
 			Obs: map[string]any{"accepted": res.accepted, "stopped_at": res.stage, "detail": res.detail, "name_id": res.nameID, "attributes": res.attrs,
-				"relay_state_back": res.relayBack},
+				"relay_state_back": res.relayBack, "encrypted": res.encrypted},
 			Term: fmt.Sprintf("{| c7_sess := %s; c7_accepted := %s; c7_nameid := %s; c7_attrs := %s |}",
 				sess.term(), emitBool(res.accepted), emitStr(res.nameID), attrsTerm(res.attrs)),
 			ImplSpecOK: specOK,
